@@ -106,7 +106,14 @@ fn worker(fd: Arc<File>, shared: Arc<Shared>) {
         assert!(matches!(&*s_guard, State::Started | State::Done(_)));
         drop(s_guard);
 
+        #[cfg(feature = "verif")]
+        let _vg = {
+            use std::os::fd::AsRawFd as _;
+            crate::verif::pre_deferred("fsyncer", crate::verif::Kind::Fsync, fd.as_raw_fd())
+        };
         let sync_result = fd.sync_all();
+        #[cfg(feature = "verif")]
+        let sync_result = _vg.finish_result(sync_result);
 
         let mut s_guard = shared.s.lock();
         if matches!(&*s_guard, State::HandleDead) {
